@@ -1,6 +1,168 @@
-//! C05 — not implemented yet.
-use crate::core::Ctx;
-use serde_json::Value;
+//! C05 — requests on a keep-alive connection are handled independently and in order (DESIGN §5 C05).
+//!
+//! History space: all sequences (length ≤ 4 quick / ≤ 5 thorough) over a request alphabet chosen so that
+//! anything surviving from an earlier request becomes visible in a later echo; one segment per request.
+//! Oracle (differential, no expected values written by hand): response k must be byte-identical to the response
+//! the same request gets as the only request on a fresh connection.  The loop model is bound to the real
+//! `Session::manage` by replaying short histories over loopback TCP.
 
-pub fn run(ctx: &mut Ctx) { ctx.machinery_error("C05 engine not implemented".into()); }
-pub fn replay(ctx: &mut Ctx, _case: &Value) { ctx.machinery_error("C05 engine not implemented".into()); }
+use crate::core::{esc, Ctx};
+use crate::wire::{self, End};
+use serde_json::{json, Value};
+
+pub struct Req { pub name: &'static str, pub bytes: Vec<u8>, pub head: bool, pub closes: bool, pub kind: &'static str }
+
+fn filler(n: usize) -> Vec<u8> { (0..n).map(|i| b'a' + (i % 26) as u8).collect() }
+
+pub fn alphabet() -> Vec<Req> {
+    let r = |name, bytes: Vec<u8>, kind| Req { name, head: bytes.starts_with(b"HEAD "), closes: false, bytes, kind };
+    let post = |body: &[u8]| { let mut v = format!("POST /e HTTP/1.1\r\nHost: h\r\nContent-Type: text/plain\r\nContent-Length: {}\r\n\r\n", body.len()).into_bytes(); v.extend_from_slice(body); v };
+    // a body that ends exactly at the end of the 1 KiB buffer / one byte past it
+    let head_len = post(b"").len() + 2; // "0" -> 3 digits
+    let exact = filler(1024 - head_len);
+    let over = filler(1024 - head_len + 1);
+    let mut nul_mid = b"abcde\0".to_vec(); nul_mid.extend(filler(60)); nul_mid.extend_from_slice(b"\0tail-after-second-nul");
+    let mut long_query = b"GET /e?q=".to_vec(); long_query.extend(filler(600)); long_query.extend_from_slice(b" HTTP/1.1\r\nHost: h\r\nX-Long: ");
+    long_query.extend(filler(200)); long_query.extend_from_slice(b"\r\n\r\n");
+    let mut v = vec![
+        r("get-hit", b"GET /e HTTP/1.1\r\nHost: h\r\n\r\n".to_vec(), "plain"),
+        r("get-404", b"GET /missing HTTP/1.1\r\nHost: h\r\n\r\n".to_vec(), "plain"),
+        r("get-params", b"GET /p/xx/yy HTTP/1.1\r\nHost: h\r\n\r\n".to_vec(), "param"),
+        r("post-3", post(b"abc"), "payload"),
+        r("post-nul-first", post(b"\0ab"), "payload"),
+        r("post-nul-mid", post(&nul_mid), "payload"),
+        r("post-buffer-exact", post(&exact), "payload"),
+        r("post-buffer+1", post(&over), "payload"),
+        r("post-2k", post(&filler(2048)), "payload"),
+        r("get-headers", b"GET /e?k=v HTTP/1.1\r\nHost: h\r\nX-A: 1\r\nx-a: 2\r\nAccept: a\r\nAccept: b\r\nCookie: c=1\r\nUser-Agent: ua\r\n\r\n".to_vec(), "header"),
+        r("get-set-context", b"GET /e HTTP/1.1\r\nHost: h\r\nX-Set-Ctx: secret-ctx\r\n\r\n".to_vec(), "context"),
+        r("head-hit", b"HEAD /e HTTP/1.1\r\nHost: h\r\n\r\n".to_vec(), "plain"),
+        r("get-long", long_query, "buffer"),
+        r("malformed-version", b"GET /e HTTP/1.0\r\nHost: h\r\n\r\n".to_vec(), "malformed"),
+        r("put-short", b"PUT /e HTTP/1.1\r\n\r\n".to_vec(), "plain"),
+    ];
+    v.push(Req { name: "get-close", bytes: b"GET /e HTTP/1.1\r\nHost: h\r\nConnection: close\r\n\r\n".to_vec(), head: false, closes: true, kind: "close" });
+    v
+}
+
+pub fn check_history(ctx: &mut Ctx, router: &ohkami::__verif__::VerifRouter, alpha: &[Req], fresh: &[Vec<u8>], hist: &[usize]) {
+    ctx.transitions += hist.len() as u64;
+    let segments: Vec<Vec<u8>> = hist.iter().map(|&i| alpha[i].bytes.clone()).collect();
+    let obs = wire::run_mem(router, &segments);
+    // expected: fresh responses up to and including the first closing request
+    let mut expected: Vec<&Vec<u8>> = vec![];
+    let mut closed_at = None;
+    for (k, &i) in hist.iter().enumerate() { expected.push(&fresh[i]); if alpha[i].closes { closed_at = Some(k); break } }
+    let heads: Vec<bool> = hist.iter().map(|&i| alpha[i].head).collect();
+    let (got, leftover) = wire::split_responses(&obs.written, &heads);
+    let names: Vec<&str> = hist.iter().map(|&i| alpha[i].name).collect();
+    let witness = |problem: &str, k: usize| json!({"history": names, "problem": problem, "at_request": k,
+        "expected": expected.get(k).map(|e| esc(&e[..e.len().min(400)])), "observed": got.get(k).map(|e| esc(&e[..e.len().min(400)])), "end": format!("{:?}", obs.end), "leftover": esc(&leftover[..leftover.len().min(100)])});
+    let pair_feature = |k: usize| -> String { let prev = if k == 0 { "first" } else { alpha[hist[k - 1]].kind }; format!("{}>{}", prev, alpha[hist[k]].kind) };
+    let mut problems: Vec<(String, usize)> = vec![];
+    if !leftover.is_empty() { problems.push((format!("{}/malformed-response", pair_feature(got.len().min(hist.len() - 1))), got.len())) }
+    for k in 0..expected.len().max(got.len()) {
+        match (expected.get(k), got.get(k)) {
+            (Some(e), Some(g)) if *e == g => {}
+            (Some(e), Some(g)) => {
+                // what leaked? look for material of earlier requests in the observed echo
+                let mut leak = "differs";
+                if wire::status_of(g) != wire::status_of(e) { leak = "status" }
+                else { for &j in &hist[..k] {
+                    if alpha[j].kind == "context" && find(g, b"secret-ctx") && !find(e, b"secret-ctx") { leak = "context" }
+                    else if alpha[j].kind == "header" && (find(g, b"User-Agent") || find(g, b"X-A")) && !find(e, b"X-A") { leak = "header" }
+                    else if alpha[j].kind == "param" && find(g, b"xx") && !find(e, b"xx") { leak = "param" }
+                    else if alpha[j].kind == "payload" && find(g, b"payload=Some") && !find(e, b"payload=Some") { leak = "payload" }
+                } }
+                problems.push((format!("{}/response-{leak}", pair_feature(k)), k));
+                break
+            }
+            (Some(_), None) => { problems.push((format!("{}/missing-response", pair_feature(k)), k)); break }
+            (None, Some(_)) => { problems.push((if closed_at.is_some() { "after-close/extra-response".to_string() } else { "extra-response".to_string() }, k)); break }
+            (None, None) => {}
+        }
+    }
+    // how the session ended
+    match (&obs.end, closed_at) {
+        (End::ServerClosed { .. }, Some(_)) => {}
+        (End::EndedOnClientClose, None) => {}
+        (End::EndedOnClientClose, Some(k)) => problems.push(("close/session-continued-after-connection-close".into(), k)),
+        (End::ServerClosed { .. }, None) => if problems.is_empty() { problems.push((format!("{}/session-closed-early", pair_feature(hist.len() - 1)), hist.len() - 1)) },
+        (End::WaitingMidRequest(_), _) => if problems.is_empty() { problems.push((format!("{}/stall-at-request-boundary", pair_feature(got.len().min(hist.len() - 1))), got.len())) },
+        (End::Panic(p), _) => problems.push((format!("{}/panic:{p}", pair_feature(got.len().min(hist.len() - 1))), got.len())),
+        (End::Livelock, _) => problems.push(("livelock".into(), 0)),
+    }
+    if problems.is_empty() {
+        let collision = hist.len() >= 2 && hist.windows(2).any(|w| alpha[w[0]].kind != "plain" || alpha[w[0]].bytes.len() > alpha[w[1]].bytes.len());
+        ctx.pass(&format!("len{}:{}", hist.len(), if closed_at.is_some() { "closed" } else { "kept" }), hist.len() >= 2, collision);
+    } else {
+        let (cls, k) = problems[0].clone();
+        ctx.violation(&format!("C05/{cls}"), true, || witness(&cls, k));
+    }
+}
+
+fn find(hay: &[u8], needle: &[u8]) -> bool { hay.windows(needle.len()).any(|w| w == needle) }
+
+fn fresh_responses(router: &ohkami::__verif__::VerifRouter, alpha: &[Req]) -> Vec<Vec<u8>> {
+    alpha.iter().map(|r| wire::run_mem(router, &[r.bytes.clone()]).written).collect()
+}
+
+pub fn run(ctx: &mut Ctx) {
+    crate::app::pin_clock();
+    let router = wire::echo_router();
+    let alpha = alphabet();
+    let fresh = fresh_responses(&router, &alpha);
+    let quick = ctx.quick();
+    let max_len = if quick { 4 } else { 5 };
+    let conform_len = if quick { 2 } else { 3 };
+    // sanity of the differential baseline: a fresh response must be one well-formed message
+    for (i, r) in alpha.iter().enumerate() {
+        let (got, left) = wire::split_responses(&fresh[i], &[r.head]);
+        if got.len() != 1 || !left.is_empty() { ctx.violation(&format!("C05/fresh/{}/not-one-response", r.kind), true, || json!({"history": [r.name], "observed": esc(&fresh[i][..fresh[i].len().min(300)])})); }
+    }
+    // binding the loop model to the code (runs before the enumeration; a mismatch blocks every verdict)
+    let n = alpha.len();
+    let tcp = wire::TcpBinding::new();
+    let mut hists: Vec<Vec<usize>> = vec![];
+    for len in 1..=conform_len { let total = n.pow(len as u32); for mut code in 0..total { let mut h = vec![]; for _ in 0..len { h.push(code % n); code /= n; } hists.push(h); } }
+    for h in &hists {
+        if h.len() == 3 && (h[0] + 2 * h[1] + 3 * h[2]) % 5 != 0 { continue } // thorough: one fifth of the length-3 histories
+        if !ctx.mine() { continue }
+        let segments: Vec<Vec<u8>> = h.iter().map(|&i| alpha[i].bytes.clone()).collect();
+        match wire::conform(&router, &tcp, &segments) {
+            Ok(()) => ctx.traces_validated += 1,
+            Err(e) => ctx.machinery_error(format!("session-loop model does not conform to Session::manage on history {:?}: {e}", h.iter().map(|&i| alpha[i].name).collect::<Vec<_>>())),
+        }
+    }
+    if !ctx.machinery_errors.is_empty() { return }
+    // the enumeration
+    for len in 1..=max_len {
+        let total = n.pow(len as u32);
+        let chunk = n.pow((len as u32).saturating_sub(2).max(0)).max(1);
+        let mut start = 0;
+        while start < total {
+            if ctx.mine() {
+                for mut code in start..(start + chunk).min(total) {
+                    let mut h = vec![]; for _ in 0..len { h.push(code % n); code /= n; }
+                    check_history(ctx, &router, &alpha, &fresh, &h);
+                    ctx.states += 1;
+                }
+            }
+            start += chunk;
+            if ctx.out_of_time() { break }
+        }
+    }
+    ctx.extra.insert("rule".into(), json!("case = sequence of requests on one connection, one segment per request; non-trivial = length >= 2; collision = an earlier request carries material that could leak (payload, params, headers, context, long buffer contents) or is longer than its successor (stale buffer bytes)"));
+    ctx.extra.insert("bounds".into(), json!({"alphabet": alpha.iter().map(|r| r.name).collect::<Vec<_>>(), "max_length": max_len, "tcp_conformance_length": conform_len}));
+    ctx.sample(|| json!({"history": ["post-nul-mid", "put-short", "get-hit"]}));
+    ctx.sample(|| json!({"history": ["get-set-context", "get-hit"]}));
+}
+
+pub fn replay(ctx: &mut Ctx, case: &Value) {
+    crate::app::pin_clock();
+    let router = wire::echo_router();
+    let alpha = alphabet();
+    let fresh = fresh_responses(&router, &alpha);
+    let hist: Vec<usize> = case["history"].as_array().expect("history").iter().map(|n| alpha.iter().position(|r| r.name == n.as_str().unwrap()).expect("unknown request")).collect();
+    check_history(ctx, &router, &alpha, &fresh, &hist);
+}
